@@ -295,6 +295,7 @@ func (e *Engine) isMatchDigitPrefilter(haystack []byte) bool {
 	state := e.getSearchState()
 	defer e.putSearchState(state)
 
+	failed := 0 // candidates that did not verify
 	for pos < len(haystack) {
 		digitPos := e.digitPrefilter.Find(haystack, pos)
 		if digitPos < 0 {
@@ -323,6 +324,14 @@ func (e *Engine) isMatchDigitPrefilter(haystack []byte) bool {
 			for pos < len(haystack) && haystack[pos] >= '0' && haystack[pos] <= '9' {
 				pos++
 			}
+		}
+
+		// Bounded number of failed candidates, then the linear-time engine
+		// (see digitCandidateBudget).
+		failed++
+		if failed >= digitCandidateBudget {
+			_, _, found := e.findIndicesNFAAtWithState(haystack, pos, state)
+			return found
 		}
 	}
 
